@@ -232,3 +232,102 @@ func storesToGlobal(f *ssa.Function, g *ssa.Global) bool {
 	}
 	return false
 }
+
+// checkGoShare: structural check for goroutine hand-offs. A variable (or the
+// object it points to) captured by a `go func(){...}()` closure must not be
+// written by the spawning function at any point reachable after the go
+// statement without passing the variable's own allocation again (i.e. each
+// goroutine gets its own object). Otherwise the goroutine may observe a later
+// value - e.g. every close notification naming the last proxy of a loop.
+func (x *Run) checkGoShare(fn *ssa.Function) {
+	n := 0
+	for _, b := range fn.Blocks {
+		for idx, ins := range b.Instrs {
+			g, ok := ins.(*ssa.Go)
+			if !ok {
+				continue
+			}
+			mc, ok := g.Call.Value.(*ssa.MakeClosure)
+			if !ok {
+				continue
+			}
+			n++
+			okAll := true
+			what := ""
+			for _, bd := range mc.Bindings {
+				cell, ok := bd.(*ssa.Alloc)
+				if !ok {
+					continue
+				}
+				if w := x.writtenAfter(fn, b, idx, cell); w != "" {
+					okAll = false
+					what = w
+				}
+			}
+			note := "variables captured by the goroutine are not written afterwards"
+			if !okAll {
+				note = "captured variable written after the go statement: " + what
+			}
+			x.obligeStatic(newState(), fmt.Sprintf("goshare.%s.go#%d", x.fnShort(fn), n), "goshare", okAll, g.Pos(), note)
+		}
+	}
+}
+
+// writtenAfter: is cell (or the object a load of cell points to) stored to at a
+// point reachable from (b, idx) without re-executing cell's allocation?
+func (x *Run) writtenAfter(fn *ssa.Function, b *ssa.BasicBlock, idx int, cell *ssa.Alloc) string {
+	isWrite := func(ins ssa.Instruction) bool {
+		st, ok := ins.(*ssa.Store)
+		if !ok {
+			return false
+		}
+		a := st.Addr
+		for {
+			switch v := a.(type) {
+			case *ssa.FieldAddr:
+				a = v.X
+				continue
+			case *ssa.IndexAddr:
+				a = v.X
+				continue
+			case *ssa.UnOp:
+				if v.X == ssa.Value(cell) {
+					return true
+				}
+			case *ssa.Alloc:
+				if v == cell {
+					return true
+				}
+			}
+			return false
+		}
+	}
+	type pos struct {
+		b *ssa.BasicBlock
+		i int
+	}
+	seen := map[*ssa.BasicBlock]bool{}
+	var scan func(bb *ssa.BasicBlock, from int) string
+	scan = func(bb *ssa.BasicBlock, from int) string {
+		for i := from; i < len(bb.Instrs); i++ {
+			ins := bb.Instrs[i]
+			if ins == ssa.Instruction(cell) {
+				return "" // a new variable from here on
+			}
+			if isWrite(ins) {
+				return x.posStr(ins.Pos())
+			}
+		}
+		for _, s := range bb.Succs {
+			if seen[s] {
+				continue
+			}
+			seen[s] = true
+			if w := scan(s, 0); w != "" {
+				return w
+			}
+		}
+		return ""
+	}
+	return scan(b, idx+1)
+}
